@@ -33,6 +33,28 @@ pub fn derive_bytes(item_src: &str) -> Result<Vec<u8>, String> {
     if v.len() == 1 { Ok(v.pop().unwrap()) } else { Err(format!("{} byte-string literals in the derive output", v.len())) }
 }
 
+/// The same through the builder's `syn::parse::Parse` impl (what the proc-macro entry point uses) and
+/// its `ToTokens` impl.
+pub fn derive_bytes_via_parse(item_src: &str) -> Result<Vec<u8>, String> {
+    let builder: SplDiscriminateBuilder = syn::parse_str(item_src).map_err(|e| format!("parse: {e}"))?;
+    let mut ts = proc_macro2::TokenStream::new();
+    quote::ToTokens::to_tokens(&builder, &mut ts);
+    let mut v = vec![];
+    fn find(ts: proc_macro2::TokenStream, out: &mut Vec<Vec<u8>>) {
+        for t in ts {
+            match t {
+                proc_macro2::TokenTree::Group(g) => find(g.stream(), out),
+                proc_macro2::TokenTree::Literal(l) => {
+                    if let Ok(syn::Lit::ByteStr(b)) = syn::parse_str::<syn::Lit>(&l.to_string()) { out.push(b.value()); }
+                }
+                _ => {}
+            }
+        }
+    }
+    find(ts, &mut v);
+    if v.len() == 1 { Ok(v.pop().unwrap()) } else { Err(format!("{} byte-string literals in the derive output", v.len())) }
+}
+
 pub fn derive_tokens(item_src: &str) -> Result<String, String> {
     let item: syn::Item = syn::parse_str(item_src).map_err(|e| format!("syn: {e}"))?;
     let builder = match item {
@@ -56,6 +78,15 @@ pub fn run(cases: &[String]) -> RunOut {
                 let ct = guarded(|| derive_bytes(&item));
                 let expect = Sha256::digest(s.as_bytes())[..8].to_vec();
                 let mut err = None;
+                // the item kind and the entry point must not matter: an enum, and the `Parse` / `ToTokens` route
+                let item_enum = format!("#[discriminator_hash_input({lit})]\nenum E {{ A, B }}");
+                let ct_enum = guarded(|| derive_bytes(&item_enum));
+                let ct_parse = guarded(|| derive_bytes_via_parse(if t[1].len() % 4 == 0 { &item } else { &item_enum }));
+                if ct_enum != ct || ct_parse != ct { err = Some("the derive output depends on the item kind or the entry point".to_string()); }
+                // without the attribute the derive must fail (not invent a discriminator)
+                if guarded(|| derive_bytes("struct S;")).map_or(true, |r| r.is_ok()) || guarded(|| derive_bytes_via_parse("enum E { A }")).map_or(true, |r| r.is_ok()) || guarded(|| derive_bytes_via_parse("fn f() {}")).map_or(true, |r| r.is_ok()) {
+                    err = Some("the derive accepted an item without a hash-input attribute / an unsupported item".to_string());
+                }
                 let rt_s = match &rt { Some(d) => hex(d.as_slice()), None => { err = Some("run-time path panicked".to_string()); "panic".into() } };
                 let ct_s = match &ct {
                     Some(Ok(b)) => hex(b),
@@ -98,6 +129,11 @@ pub fn run(cases: &[String]) -> RunOut {
                         let a: [u8; 8] = (*d).into();
                         let r2: &[u8] = d.as_ref();
                         if d.as_slice() != &b[..] || a[..] != b[..] || r2 != &b[..] || ArrayDiscriminator::from(a) != *d { err = Some("lossy conversion".into()); }
+                        // const constructor, array view and Borsh: all the identity on the 8 bytes
+                        let r3: &[u8; 8] = d.as_ref();
+                        if ArrayDiscriminator::new(a) != *d || r3 != &a { err = Some("new / AsRef<[u8; 8]> are not the identity".into()); }
+                        let bo = borsh::to_vec(d).unwrap();
+                        if bo != b || borsh::from_slice::<ArrayDiscriminator>(&bo).ok() != Some(*d) { err = Some("borsh encoding is not the 8 bytes".into()); }
                     }
                     if !b.is_empty() { out.stats.nontrivial_case(line); }
                     out.stats.bump(if r.is_ok() { "conv:slice-ok" } else { "conv:slice-err" });
